@@ -195,6 +195,7 @@ def run(cx):
     from rules import C08
     C08.jacobian_rules(cx)
     C08.euler_rules(cx)
+    C08.set_rules(cx)
 
 
 def run_thorough(cx):
